@@ -305,6 +305,10 @@ class Impl:
             if len(new) != 1:
                 raise RuntimeError(f"install of {op['type']} created {len(new)} objects")
             self._adopt(new[0])
+            if hasattr(new[0], "configure_backup"):
+                # without a backup server, DatabaseService.restore_backup (run when a fix completes) passes dest_ip_address=None
+                # to the FTP client and AttributeError escapes apply_timestep — a database defect (C17), not a lifecycle one
+                new[0].configure_backup("192.168.1.250")
             return "ok", self._install_line(new[0], op["listen"], op["health"], op["fix"])
         if k == "uninst":
             try:
